@@ -453,6 +453,15 @@ theorem C16_attrs_only_on_miss (sch : Schema) (s : Store) (cs txcs : List Cond) 
   · intro miss
     simp [firstOrInit, firstOrCreate, miss, built]
 
+/-- a record built from the conditions plus Attrs plus Assign: on a miss the record is the zero value with
+    (1) every equality of the conditions (also those inside And-groups; raw SQL text contributes none),
+    then (2) the attrs, then (3) the assigns laid over it — in that order, later writes win -/
+theorem C16_built_from_conditions (cs : List Cond) (attrs assigns : Option Init) :
+    built cs attrs assigns = applyInit (applyInit (setAll zeroRow (eqsAll cs)) attrs) assigns ∧
+    ∀ c, setAll zeroRow (eqsAll cs) c = (lookupCol (eqsAll cs).reverse c).getD 0 := by
+  refine ⟨by simp [built, assignAll_eq], fun c => ?_⟩
+  rw [setAll_apply]; rfl
+
 /-- Assign in both cases (FirstOrInit): whether or not a row matched, the returned record is some base
     record with the assigns laid over it, so every assigned column holds its (last) assigned value -/
 theorem C16_assign_both_cases (sch : Schema) (s : Store) (cs : List Cond) (attrs : Option Init) (i : Init) :
